@@ -155,6 +155,7 @@ def cases(draw, tier):
     from .c16 import twin_case
 
     return {"spec": spec, "cfg": cfg, "history": hist, "sib_instance_cbs": draw(st.booleans()), "sib_late_as_ctor": draw(st.booleans()),
+            **({"sib_start": draw(st.one_of(st.none(), st.integers(0, 3)))} if draw(st.booleans()) else {}),
             "twin": draw(twin_case()) if draw(st.integers(0, 5)) == 0 else None}
 
 
@@ -170,10 +171,11 @@ def run_case(case):
     out = play_case(case, P, PROPERTY)
     if out["ok"] and case.get("twin"):
         # a listener attached to a shallow copy (copy.copy) of a machine belongs to that copy alone
-        from .c16 import shallow_twin
+        from .c16 import shallow_twin, shared_defaults
 
-        bad, labels = shallow_twin(case, PROPERTY)
-        if bad is not None:
-            return bad
-        out["labels"] = sorted(set(out.get("labels", ())) | labels)
+        for fam in (shallow_twin, shared_defaults):
+            bad, labels = fam(case, PROPERTY)
+            if bad is not None:
+                return bad
+            out["labels"] = sorted(set(out.get("labels", ())) | labels)
     return out
